@@ -57,8 +57,8 @@ theorem bystander_untouched_by_partial_trace (l : Layout) (c : Nat) (T : List Na
 theorem bystander_untouched_by_povm_routing (l : Layout) (c : Nat) (T : List Nat) (b : Block)
     (hb : b ∈ l) (hwf : (allMembers l).Nodup) (hm : meets T b = false) : b ∈ PW.Routing.cePovm l c T :=
   PW.Routing.cePovm_bystander l c T b hb hwf hm
-theorem bystander_untouched_by_resize (l : Layout) (f : Nat) (b : Block) (hb : b ∈ l) (hf : f ∉ b.members) :
-    b ∈ PW.Routing.actResize l f := PW.Routing.actResize_bystander l f b hb hf
+theorem bystander_untouched_by_resize (l : Layout) (f : Nat) (shrink : Bool) (b : Block) (hb : b ∈ l) (hf : f ∉ b.members) :
+    b ∈ PW.Routing.actResize l f shrink := PW.Routing.actResize_bystander l f shrink b hb hf
 theorem bystander_untouched_by_measurement (l : Layout) (M surv : List Nat) (b : Block) (hb : b ∈ l)
     (hne : b.members ≠ []) (hm : ∀ x ∈ b.members, x ∉ M) : b ∈ PW.Routing.actMeasure l M surv :=
   PW.Routing.actMeasure_bystander l M surv b hb hne hm
